@@ -35,6 +35,9 @@ SITES = {
     "ems-required-but-resumed-session-negotiated-without-ems":
         "internal/flight/flight12/flight0handler.go handleHelloResume / flight3handler.go handleResumption "
         "(Session{ID, Secret} carries no extended-master-secret flag)",
+    "completes-although-ems-required-and-not-in-this-handshakes-hellos":
+        "internal/flight/flight12/flight3handler.go flight3Parse (client: RequireExtendedMasterSecret checked on every "
+        "ServerHello, before handleResumption) / flight0handler.go flight0Parse (server: ErrServerRequiredButNoClientEMS)",
     "version-downgrade-through-first-client-hello":
         "conn.go pickVersionFromClientHello / negotiateVersionClient (supported_versions of the first ClientHello is "
         "unauthenticated; no downgrade sentinel in ServerHello.random)",
